@@ -15,7 +15,7 @@ def seq_families(tier):
     Each entry: name -> (cfg, rand_cfg or None)"""
     q = tier == "quick"
     F = {}
-    un = dict(maxData=2, maxTop=3, maxPull=2, allowFail=True, sinkErr=False)
+    un = dict(maxData=2 if q else 3, maxTop=3 if q else 4, maxPull=2, allowFail=True, sinkErr=False)
     unE = dict(maxData=1 if q else 2, maxTop=2 if q else 3, maxPull=1, allowFail=True, sinkErr=True)
     big = dict(maxData=4, maxTop=6, maxPull=4, allowFail=True, sinkErr=True)
     for kind, par in (("map", dict(f="inc")), ("filter", dict(p="even")), ("scan", dict(r="lin", seed=5)),
@@ -51,7 +51,7 @@ def seq_families(tier):
     for kind in ("merge", "concat", "combine"):
         F[kind + "2_2s"] = (scen.with_bounds(scen.nary(kind, 2), kind, **tb), None)
     F["take1_2s"] = (scen.with_bounds(scen.unary("take", n=1), "take", **dict(tb, maxPull=1)), None)
-    nb = dict(maxData=1, maxTop=3, maxPull=1, allowFail=True)
+    nb = dict(maxData=1 if q else 2, maxTop=3, maxPull=1, allowFail=True)
     nb3 = dict(maxData=1, maxTop=2 if q else 3, maxPull=1, allowFail=True)
     nbig = dict(maxData=3, maxTop=6, maxPull=3, allowFail=True, sinkErr=True)
     for kind in ("merge", "concat", "combine"):
@@ -67,7 +67,7 @@ def seq_families(tier):
     F["flatten2"] = (scen.with_bounds(scen.flatten_g(2), "flatten", **nb),
                      scen.with_bounds(scen.flatten_g(3), "flatten", **nbig))
     F["share1"] = (scen.with_bounds(scen.share_g(), "share", sinks=["probe"], **un), None)
-    F["share2"] = (scen.with_bounds(scen.share_g(), "share", sinks=["probe", "probe"], maxData=1, maxTop=4,
+    F["share2"] = (scen.with_bounds(scen.share_g(), "share", sinks=["probe", "probe"], maxData=1 if q else 2, maxTop=4,
                                     maxPull=1, allowFail=True),
                    scen.with_bounds(scen.share_g(), "share", sinks=["probe", "probe", "probe"], **nbig))
     return F
